@@ -133,7 +133,20 @@ fn fixed_spec(kinds: &[usize]) -> SetSpec {
     }
 }
 
-fn random_case(bytes: &[u8]) -> SetCase {
+/// n rules of all kinds (failing ones in between), names not in lexicographic order
+fn large_case(n: usize, stride: usize) -> SetCase {
+    SetCase {
+        spec: SetSpec {
+            rules: (0..n).map(|i| (format!("{}-rule-{i}", UNSORTED[i % UNSORTED.len()]), rule_of_kind((i * stride + i / 15) % RULE_KINDS, i as i128 + 1))).collect(),
+            fns: standard_fns(),
+            symbols: standard_symbols(),
+            suspend: 0,
+        },
+        inputs: vec![crate::pool::map(&[("vi", Value::Int(5)), ("id", Value::Int(1))]), crate::pool::map(&[("vi", Value::Int(6)), ("id", Value::Int(2))])],
+    }
+}
+
+pub(crate) fn random_case(bytes: &[u8]) -> SetCase {
     let mut d = Dec::new(bytes);
     let n = d.below(9);
     let fns = gen_fns(&mut d, false);
@@ -173,7 +186,7 @@ pub fn run(ctx: &Ctx) {
         "Generated: (1) every ruleset of 0-4 rules drawn from 15 rule kinds (one succeeding, one calling cacheable and non-cacheable \
          probes and a symbol, and one failing with each error class: type mismatch, division by zero, invalid cast, out of bounds, \
          unknown reference, invalid symbol, unknown function, user-function failure, and four out-of-range results: Int +, dec(2^96), DateTime + Duration, int(f1e300)), i.e. every subset and \
-         position of failing rules (exhaustive); (2) random rulesets of 0-8 rules mixing those kinds, call-heavy rules and random \
+         position of failing rules (exhaustive), and rulesets of 31-1000 rules of those kinds; (2) random rulesets of 0-8 rules mixing those kinds, call-heavy rules and random \
          typed trees, with random function tables (failure sets), on one to three different inputs of every shape evaluated consecutively by the same ruleset instance; (3) serde inputs T (all data-model kinds, \
          incl. ones whose Serialize fails) for evaluate(&T). Oracle: exactly one outcome per rule, in order, carrying that rule \
          (name and full equality), with the value the reference evaluator gives for that rule on its own; evaluate(&T) == \
@@ -218,6 +231,21 @@ pub fn run(ctx: &Ctx) {
             check(&case)
         },
         |i| SetCase { spec: fixed_spec(&decode(i)), inputs: vec![facts.clone()] }.to_json(),
+        "setcase",
+    );
+
+    // (1b) large rulesets: the same for 31 ... 1000 rules
+    let large: Vec<SetCase> = [31usize, 32, 33, 64, 65, 128, 129, 257, 1000].iter().flat_map(|&n| [1usize, 7, 11].into_iter().map(move |s| large_case(n, s))).collect();
+    ctx.enumerate(
+        "large-rulesets",
+        large.len() as u64,
+        true,
+        |i, acc| {
+            acc.cell("large", true);
+            acc.sample("large", || format!("{} rules", large[i as usize].spec.rules.len()));
+            check(&large[i as usize])
+        },
+        |i| large[i as usize].to_json(),
         "setcase",
     );
 
@@ -283,4 +311,14 @@ pub fn replay(j: &serde_json::Value) -> Option<Verdict> {
         return Some(check_serializable(&spec, &t));
     }
     SetCase::from_json(j).map(|c| check(&c))
+}
+
+/// Entry point of the `set_diff` fuzz target: selector 0 = random ruleset, 1 = serializable input.
+pub(crate) fn fuzz_bytes(sel: u8, bytes: &[u8]) -> Verdict {
+    if sel % 2 == 0 {
+        check(&random_case(bytes))
+    } else {
+        let j = json!({ "ser_bytes": bytes });
+        replay(&j).unwrap_or(Ok(()))
+    }
 }
